@@ -15,6 +15,7 @@ from vp.driver import Unit, Run, VERIF, sh
 LEVEL = "proof"
 F = "src/Persistence_matrix/include/gudhi/Fields/"
 PC = "src/Persistent_cohomology/include/gudhi/Persistent_cohomology/"
+OPS = F + "Zp_field_operators.h"
 
 TD_U = {"Element": "unsigned int", "Characteristic": "unsigned int", "Unsigned_integer_type": "unsigned int"}
 IS_SIGNED = r"std::is_signed_v<\w+>"
@@ -441,7 +442,308 @@ def units(tier):
     # ---- public operations of the two run-time operator classes --------------------------------------------
     for k in ("zp_ops", "mfs_ops"):
         ops_units(PROF[k], U, thorough)
+    inverse_units(U, thorough)
+    table_units(U, thorough)
+    field_zp_units(U, thorough)
+    z2_units(U)
+    element_operator_units(U)
     return U
+
+
+# ------------------------------------------------------------------------------------------------ inverses
+PRIME31 = "(p_ == 2 || p_ == 3 || p_ == 5 || p_ == 7 || p_ == 11 || p_ == 13 || p_ == 17 || p_ == 19 || p_ == 23 || p_ == 29 || p_ == 31)"
+
+
+def inverse_units(U, thorough):
+    # Euclid inverses (bounded: modulus <= 31)
+    for k, sig, P_, extra in (("zp_el", r"static int _get_inverse\(Element element\)", "characteristic", ""),
+                              ("mfs_el", r"static constexpr int _get_inverse\(Element element, const Element mod\)", "mod", ", in_p"),
+                              ("mfs_sh", r"static constexpr int _get_inverse\(Element element, const Characteristic mod\)", "mod", ", in_p"),
+                              ("mfs_ops", MFSO + r"::_get_inverse\(Element element,\s*Characteristic mod\)", "mod", ", in_p")):
+        pr = PROF[k]
+        ret = "long int" if k == "mfs_ops" else "int"
+        if k == "zp_el":
+            con = f"""
+__CPROVER_requires({PRIME31.replace('p_', 'characteristic')} && element >= 1 && element < characteristic)
+__CPROVER_ensures(__CPROVER_return_value >= 0 && (unsigned)__CPROVER_return_value < characteristic)
+__CPROVER_ensures(((unsigned)__CPROVER_return_value * element) % characteristic == 1)
+__CPROVER_assigns()
+"""
+            decl, call = "unsigned int in_e; characteristic = nondet_uint();", "_get_inverse(in_e);"
+        else:
+            # called by get_partial_inverse with the (not reduced) element and a sub-product mod with gcd(element, mod) == 1
+            con = """
+__CPROVER_requires(mod >= 2 && mod <= 31 && element >= 1 && element <= 255 && vp_gcd_u(element, mod) == 1)
+__CPROVER_ensures(__CPROVER_return_value >= 0 && (unsigned)__CPROVER_return_value < mod)
+__CPROVER_ensures(((uint64_t)__CPROVER_return_value * element) % mod == 1)
+__CPROVER_assigns()
+"""
+            decl, call = "unsigned int in_e, in_p;", "_get_inverse(in_e, in_p);"
+        fn = Fn(pr.path, sig, "_get_inverse", con, scopes=pr.scopes,
+                sig_subs=([(r"^.*?_get_inverse\(", "long int _get_inverse(")] if pr.scopes else []),
+                canary=(r"x = temp;", "x = temp + 1;"))
+        U.append(Unit(f"{k}._get_inverse.m31", "C10", [fn], enforce="_get_inverse", typedefs=TD_U, globals_=pr.globals_, unwind=14,
+                      route="B", bound="modulus <= 31" + ("" if k == "zp_el" else ", element <= 255"), runs=[Run(backend="kissat", timeout=600)],
+                      inputs=["in_e", "in_p", "characteristic"], replay=(mk_replay_native(k) if k in NATIVE_CLASS else None),
+                      harness=H("  " + decl, call), desc="extended-Euclid inverse: x * r == 1 modulo the modulus whenever gcd(x, modulus) == 1"))
+    # table lookup: reads the slot of the residue
+    pr = PROF["zp_ops"]
+    G = pr.globals_ + "unsigned int inverse_[65536];\ntypedef struct { unsigned int first; unsigned int second; } vp_pair_uu;\n"
+    gv = fn_gvu(pr)
+    f_gi = Fn(OPS, r"Element get_inverse\(Element e\) const", "get_inverse", """
+__CPROVER_requires(characteristic_ >= 2 && characteristic_ <= 65536)
+__CPROVER_ensures(__CPROVER_return_value == inverse_[RES_U(e, characteristic_)])
+__CPROVER_assigns()
+""", calls={"get_value": "get_value_u"}, canary=(r"inverse_\[get_value_u\(e\)\]", "inverse_[get_value_u(e) / 2]"))
+    U.append(Unit("zp_ops.get_inverse", "C10", [gv, f_gi], enforce="get_inverse", replace=["get_value_u"], typedefs=TD_U, globals_=G,
+                  inputs=["in_e", "characteristic_"], runs=[Run(backend="z3", timeout=240)],
+                  harness=H("  unsigned int in_e; characteristic_ = nondet_uint();", "get_inverse(in_e);"),
+                  desc="Zp_field_operators::get_inverse: returns the table entry of the residue of e (never reads outside the table)"))
+    f_gpi = Fn(OPS, r"std::pair<Element, Characteristic> get_partial_inverse\(Element e,\s*Characteristic productOfCharacteristics\) const", "get_partial_inverse", """
+__CPROVER_requires(characteristic_ >= 2 && characteristic_ <= 65536)
+__CPROVER_ensures(__CPROVER_return_value.first == inverse_[RES_U(e, characteristic_)])
+__CPROVER_ensures(__CPROVER_return_value.second == productOfCharacteristics)
+__CPROVER_assigns()
+""", sig_subs=[(r"std::pair<Element, Characteristic>", "vp_pair_uu")], subs=[(r"return \{([^;]*)\};", r"return (vp_pair_uu){\1};")],
+                canary=(r"productOfCharacteristics\}", "productOfCharacteristics + 1}"))
+    f_gi2 = Fn(OPS, r"Element get_inverse\(Element e\) const", "get_inverse", f_gi.contract, calls={"get_value": "get_value_u"})
+    U.append(Unit("zp_ops.get_partial_inverse", "C10", [gv, f_gi2, f_gpi], enforce="get_partial_inverse", replace=["get_inverse"], typedefs=TD_U, globals_=G,
+                  inputs=["in_e", "in_q", "characteristic_"],
+                  runs=[Run(only=["*.postcondition.1"], backend="z3", timeout=240), Run(exclude=["*.postcondition.1"], backend="sat", timeout=240)],
+                  harness=H("  unsigned int in_e, in_q; characteristic_ = nondet_uint();", "get_partial_inverse(in_e, in_q);"),
+                  desc="Zp_field_operators::get_partial_inverse: (inverse of e, the given product unchanged)"))
+
+
+# ------------------------------------------------------------------------------------------------ table construction
+def table_units(U, thorough):
+    """set_characteristic / initialize / Field_Zp::init: primes accepted with a correct inverse table, everything else
+    refused - whole function for every c <= 16 (bounded); the refusal of c <= 1 (and > 46337) for every c."""
+    ISP16 = "(c_ == 2 || c_ == 3 || c_ == 5 || c_ == 7 || c_ == 11 || c_ == 13)"
+    VEC = ("#define INV_CAP 64\nsize_t inverse__n;\n"
+           "#define VP_RESIZE(n) do { __CPROVER_assert((n) <= INV_CAP, \"R7: resize within capacity\"); inverse__n = (n); } while (0)\n"
+           "#define VP_PUSH_INV(x) do { __CPROVER_assert(inverse__n < INV_CAP, \"R7: push_back within capacity\"); inverse_[inverse__n++] = (x); } while (0)\n"
+           "unsigned int g_k;\n")
+    cases = [("zp_ops.set_characteristic", OPS, r"void set_characteristic\(Characteristic characteristic\)", "set_characteristic", "characteristic", "characteristic_",
+              "unsigned int", [(r"inverse_\.resize\(characteristic\);", "VP_RESIZE(characteristic);")], "unsigned int characteristic_; unsigned int inverse_[INV_CAP];\n", None),
+             ("zp_sh.initialize", F + "Zp_field_shared.h", r"static void initialize\(Characteristic characteristic\)", "initialize", "characteristic", "characteristic_",
+              "unsigned int", [(r"inverse_\.resize\(characteristic\);", "VP_RESIZE(characteristic);")], "unsigned int characteristic_; unsigned int inverse_[INV_CAP];\n", None),
+             ("field_zp.init", PC + "Field_Zp.h", r"void init\(int charac\)", "init", "charac", "Prime",
+              "int", [(r"inverse_\.clear\(\);", "inverse__n = 0;", 0), (r"inverse_\.reserve\(charac\);", "", 0), (r"inverse_\.push_back\(", "VP_PUSH_INV(", 1)],
+              "int Prime; int inverse_[INV_CAP];\n", 46337)]
+    for uid, path, sig, name, arg, member, T, subs, G, upper in cases:
+        cexp = ISP16.replace("c_", arg)
+        td = dict(TD_U)
+        if T == "int":
+            td = {"Element": "int"}
+        con = f"""
+__CPROVER_requires({arg} <= 16 && g_thrown == 0)
+__CPROVER_ensures((g_thrown == 0) == {cexp})
+__CPROVER_ensures(g_thrown != 0 || ({member} == {arg} && inverse_[0] == 0))
+__CPROVER_ensures(g_thrown != 0 || !(g_k >= 1 && g_k < (unsigned){arg}) || (inverse_[g_k] >= 1 && (unsigned)inverse_[g_k] < (unsigned){arg} && ((unsigned)inverse_[g_k] * g_k) % (unsigned){arg} == 1))
+__CPROVER_assigns({member}, inverse_, inverse__n, g_thrown)
+"""
+        fn = Fn(path, sig, name, con, subs=subs, canary=(r"\) != 1\)", ") != 0)"))
+        U.append(Unit(uid + ".c16", "C10", [fn], enforce=name, typedefs=td, globals_=VEC + G, unwind=18, route="B", bound="characteristic <= 16 (both table loops unrolled, unwinding assertions on)",
+                      inputs=["in_c", "g_k"], harness=H(f"  {T} in_c = nondet_uint(); g_k = nondet_uint(); g_thrown = 0;", f"{name}(in_c);"),
+                      runs=[Run(timeout=600)], replay=mk_replay(uid.split(".")[0], "init_twice", ["in_c"]),
+                      desc="table construction: primes <= 16 accepted with inverse[k] * k == 1 mod c for every 0 < k < c (ghost index), non-primes refused"))
+        ref = f"{arg} <= 1" + (f" || {arg} > {upper}" if upper else "")
+        con2 = f"""
+__CPROVER_requires(({ref}) && g_thrown == 0)
+__CPROVER_ensures(g_thrown != 0)
+__CPROVER_assigns({member}, inverse_, inverse__n, g_thrown)
+"""
+        fn2 = Fn(path, sig, name, con2, subs=subs, canary=((rf"{arg} <= 1", f"{arg} < 1") if T != "int" else (r"Prime <= 1", "Prime < 1")))
+        U.append(Unit(uid + ".refuses", "C10", [fn2], enforce=name, typedefs=td, globals_=VEC + G, unwind=2, inputs=["in_c"],
+                      replay=mk_replay(uid.split(".")[0], "init_twice", ["in_c"]),
+                      harness=H(f"  {T} in_c = nondet_uint(); g_thrown = 0;", f"{name}(in_c);"),
+                      desc="a characteristic that is not greater than 1" + (" (or above 46337)" if upper else "") + " is refused, for every such value"))
+
+
+# ------------------------------------------------------------------------------------------------ Field_Zp
+def field_zp_units(U, thorough):
+    FZ = PC + "Field_Zp.h"
+    G = "int Prime; int inverse_[64];\n"
+    td = {"Element": "int"}
+    DOM = "Prime >= 2 && Prime <= 46337"
+    RED = lambda *v: " && ".join(f"{a} >= 0 && {a} < Prime" for a in v)
+    f_pte = lambda con, canary=None: Fn(FZ, r"Element plus_times_equal\(const Element& x, const Element& y, const Element& w\)", "plus_times_equal", con, canary=canary)
+    c_pte = f"""
+__CPROVER_requires({DOM} && {RED('x', 'y', 'w')})
+__CPROVER_ensures(__CPROVER_return_value >= 0 && __CPROVER_return_value < Prime)
+__CPROVER_ensures(__CPROVER_return_value == (((x + w * y) % Prime) < 0 ? ((x + w * y) % Prime) + Prime : ((x + w * y) % Prime)))
+__CPROVER_assigns()
+"""
+    U.append(Unit("field_zp.plus_times_equal", "C10", [f_pte(c_pte, (r"\(x \+ w \* y\)", "(x + w + y)"))], enforce="plus_times_equal", typedefs=td, globals_=G,
+                  inputs=["in_x", "in_y", "in_w", "Prime"], replay=mk_replay("field_zp", "plus_times_equal", ["in_x", "in_y", "in_w", "Prime"]),
+                  harness=H("  int in_x = nondet_uint(), in_y = nondet_uint(), in_w = nondet_uint(); Prime = nondet_uint();", "plus_times_equal(in_x, in_y, in_w);"),
+                  runs=[Run(only=["*.postcondition.1"], backend="sat", timeout=120, route="R", label="range"),
+                        Run(only=["*.postcondition.2"], backend="z3", timeout=120, route="R", label="shape"),
+                        Run(only=["*overflow*"], backend="kissat", timeout=120, route="R", label="no-signed-overflow (the 46337 claim)"),
+                        Run(exclude=["*.postcondition.*", "*overflow*"], backend="sat", timeout=120, label="rest")],
+                  desc="Field_Zp::plus_times_equal on reduced operands, every Prime <= 46337: result reduced; equals the documented expression reduced; x + w*y cannot overflow int (refutation-only where the solver does not finish)"))
+    c_tm = f"""
+__CPROVER_requires({DOM} && {RED('x', 'y')})
+__CPROVER_ensures(__CPROVER_return_value >= 0 && __CPROVER_return_value < Prime)
+__CPROVER_assigns()
+"""
+    U.append(Unit("field_zp.times_minus", "C10", [Fn(FZ, r"Element times_minus\(Element x, Element y\)", "times_minus", c_tm, canary=(r"out \+ Prime", "out - Prime"))],
+                  enforce="times_minus", typedefs=td, globals_=G, inputs=["in_x", "in_y", "Prime"], replay=mk_replay("field_zp", "times_minus", ["in_x", "in_y", "Prime"]),
+                  harness=H("  int in_x = nondet_uint(), in_y = nondet_uint(); Prime = nondet_uint();", "times_minus(in_x, in_y);"),
+                  runs=[Run(only=["*.postcondition.1"], backend="sat", timeout=120, route="R", label="range"),
+                        Run(only=["*overflow*"], backend="kissat", timeout=120, route="R", label="no-signed-overflow"),
+                        Run(exclude=["*.postcondition.*", "*overflow*"], backend="sat", timeout=120, label="rest")],
+                  desc="Field_Zp::times_minus on reduced operands: result reduced; -x*y cannot overflow int"))
+    # wrappers: times(y, w) = plus_times_equal(0, y, w); plus_equal(x, y) = plus_times_equal(x, y, 1) - ghost record of the call
+    c_ghost = f"""
+__CPROVER_requires({DOM} && {RED('x', 'y', 'w')})
+__CPROVER_ensures(__CPROVER_return_value >= 0 && __CPROVER_return_value < Prime)
+__CPROVER_ensures(g_x == x && g_y == y && g_w == w && g_r == __CPROVER_return_value && g_n == __CPROVER_old(g_n) + 1)
+__CPROVER_assigns(g_x, g_y, g_w, g_r, g_n)
+"""
+    GG = G + "int g_x, g_y, g_w, g_r, g_n;\n"
+    for name, sig, post, call, mut in (("times", r"Element times\(const Element& y, const Element& w\)", "g_x == 0 && g_y == y && g_w == w", "times(in_y, in_w);", (r"plus_times_equal\(0,", "plus_times_equal(1,")),
+                                       ("plus_equal", r"Element plus_equal\(const Element& x, const Element& y\)", "g_x == x && g_y == y && g_w == 1", "plus_equal(in_y, in_w);", (r"\(Element\)1", "(Element)0"))):
+        args = "y, w" if name == "times" else "x, y"
+        a1, a2 = args.split(", ")
+        con = f"""
+__CPROVER_requires({DOM} && {RED(a1, a2)} && g_n == 0)
+__CPROVER_ensures(g_n == 1 && {post} && __CPROVER_return_value == g_r)
+__CPROVER_assigns(g_x, g_y, g_w, g_r, g_n)
+"""
+        U.append(Unit(f"field_zp.{name}", "C10", [f_pte(c_ghost), Fn(FZ, sig, name, con, canary=mut)], enforce=name, replace=["plus_times_equal"], typedefs=td,
+                      globals_=GG, inputs=["in_y", "in_w", "Prime"],
+                      harness=H("  int in_y = nondet_uint(), in_w = nondet_uint(); Prime = nondet_uint(); g_n = 0;", call),
+                      desc=f"Field_Zp::{name}: one call of plus_times_equal with the documented arguments, result returned"))
+    # independent 64-bit congruence for concrete primes (bounded by the list)
+    plist = [2, 3, 7, 46337] if not thorough else [2, 3, 5, 7, 13, 251, 32749, 46337]
+    for pv in plist:
+        con = f"""
+__CPROVER_requires(Prime == {pv} && {RED('x', 'y', 'w')})
+__CPROVER_ensures((int64_t)__CPROVER_return_value == MATHMOD64((int64_t)x + (int64_t)w * (int64_t)y, {pv}))
+__CPROVER_assigns()
+"""
+        U.append(Unit(f"field_zp.plus_times_equal.p{pv}", "C10", [f_pte(con)], enforce="plus_times_equal", typedefs=td, globals_=G, route="B",
+                      bound=f"Prime = {pv} (boundary list), operands symbolic", inputs=["in_x", "in_y", "in_w", "Prime"],
+                      replay=mk_replay("field_zp", "plus_times_equal", ["in_x", "in_y", "in_w", "Prime"]),
+                      harness=H(f"  int in_x = nondet_uint(), in_y = nondet_uint(), in_w = nondet_uint(); Prime = {pv};", "plus_times_equal(in_x, in_y, in_w);"),
+                      runs=[Run(backend="kissat", timeout=600)],
+                      desc=f"x + w*y reduced modulo {pv}, against an independent 64-bit computation (no overflow, exact residue)"))
+
+
+# ------------------------------------------------------------------------------------------------ Z_2 operators
+def z2_units(U):
+    Z2 = F + "Z2_field_operators.h"
+    SAME = r"std::is_same_v<\w+, bool>"
+    B = {"unsigned int": lambda x: f"(({x} & 1u) != 0)", "bool": lambda x: x, "int": lambda x: f"(({x} & 1) != 0)"}
+    # get_value for int (negative ones included), unsigned, bool
+    for T in ("int", "unsigned int", "bool"):
+        fn = Fn(Z2, r"static Element get_value\(Integer_type e\)", "get_value",
+                f"__CPROVER_ensures(__CPROVER_return_value == {B[T]('e')})\n__CPROVER_assigns()\n",
+                constexpr=[(SAME, T == "bool")], canary=((r"e % 2", "e / 2") if T != "bool" else None))
+        U.append(Unit(f"z2_ops.get_value.{T.replace(' ', '_')}", "C10", [fn], enforce="get_value", typedefs={"Element": "bool", "Integer_type": T},
+                      inputs=["in_e"], harness=H(f"  {T} in_e = nondet_uint();", "get_value(in_e);"),
+                      desc=f"Z2_field_operators::get_value<{T}>: the parity of the integer, negative ones included"))
+    ops = [
+        ("add", r"static Element add\(Unsigned_integer_type e1, Unsigned_integer_type e2\)", ["e1", "e2"], None, lambda b: f"({b('e1')} != {b('e2')})"),
+        ("add_inplace", r"static void add_inplace\(Unsigned_integer_type& e1, Unsigned_integer_type e2\)", ["e1", "e2"], "e1", lambda b: f"({b('e1')} != {b('e2')})"),
+        ("subtract", r"static Element subtract\(Unsigned_integer_type e1, Unsigned_integer_type e2\)", ["e1", "e2"], None, lambda b: f"({b('e1')} != {b('e2')})"),
+        ("subtract_inplace_front", r"static void subtract_inplace_front\(Unsigned_integer_type& e1, Unsigned_integer_type e2\)", ["e1", "e2"], "e1", lambda b: f"({b('e1')} != {b('e2')})"),
+        ("subtract_inplace_back", r"static void subtract_inplace_back\(Unsigned_integer_type e1, Unsigned_integer_type& e2\)", ["e1", "e2"], "e2", lambda b: f"({b('e1')} != {b('e2')})"),
+        ("multiply", r"static Element multiply\(Unsigned_integer_type e1, Unsigned_integer_type e2\)", ["e1", "e2"], None, lambda b: f"({b('e1')} && {b('e2')})"),
+        ("multiply_inplace", r"static void multiply_inplace\(Unsigned_integer_type& e1, Unsigned_integer_type e2\)", ["e1", "e2"], "e1", lambda b: f"({b('e1')} && {b('e2')})"),
+        ("multiply_and_add", r"static Element multiply_and_add\(Unsigned_integer_type e, Unsigned_integer_type m, Unsigned_integer_type a\)", ["e", "m", "a"], None, lambda b: f"(({b('e')} && {b('m')}) != {b('a')})"),
+        ("multiply_and_add_inplace_front", r"static void multiply_and_add_inplace_front\(Unsigned_integer_type& e,\s*Unsigned_integer_type m,\s*Unsigned_integer_type a\)", ["e", "m", "a"], "e", lambda b: f"(({b('e')} && {b('m')}) != {b('a')})"),
+        ("multiply_and_add_inplace_back", r"static void multiply_and_add_inplace_back\(Unsigned_integer_type e,\s*Unsigned_integer_type m,\s*Unsigned_integer_type& a\)", ["e", "m", "a"], "a", lambda b: f"(({b('e')} && {b('m')}) != {b('a')})"),
+        ("add_and_multiply", r"static Element add_and_multiply\(Unsigned_integer_type e, Unsigned_integer_type a, Unsigned_integer_type m\)", ["e", "a", "m"], None, lambda b: f"(({b('e')} != {b('a')}) && {b('m')})"),
+        ("add_and_multiply_inplace_front", r"static void add_and_multiply_inplace_front\(Unsigned_integer_type& e, Unsigned_integer_type a, Unsigned_integer_type m\)", ["e", "a", "m"], "e", lambda b: f"(({b('e')} != {b('a')}) && {b('m')})"),
+        ("add_and_multiply_inplace_back", r"static void add_and_multiply_inplace_back\(Unsigned_integer_type e, Unsigned_integer_type a, Unsigned_integer_type& m\)", ["e", "a", "m"], "m", lambda b: f"(({b('e')} != {b('a')}) && {b('m')})"),
+        ("are_equal", r"static bool are_equal\(Unsigned_integer_type e1, Unsigned_integer_type e2\)", ["e1", "e2"], None, lambda b: f"({b('e1')} == {b('e2')})"),
+        ("get_inverse", r"static Element get_inverse\(Unsigned_integer_type e\)", ["e"], None, lambda b: f"{b('e')}"),
+    ]
+    callee_sigs = {"get_value": r"static Element get_value\(Integer_type e\)", "add": ops[0][1], "multiply": ops[5][1]}
+    for T in ("unsigned int", "bool"):
+        isb = T == "bool"
+        td = {"Element": "bool", "Unsigned_integer_type": T, "Integer_type": T}
+        ce = [(SAME, isb)]
+        for name, sig, params, ref, spec in ops:
+            b0 = B[T]
+            def bb(v, ref=ref, b0=b0):
+                return b0(f"__CPROVER_old(*{v})") if v == ref else b0(v)
+            res = f"(*{ref} != 0)" if ref else "__CPROVER_return_value"
+            con = f"__CPROVER_ensures({res} == {spec(bb)})\n" + (f"__CPROVER_ensures(*{ref} == 0 || *{ref} == 1)\n__CPROVER_assigns(*{ref})\n" if ref else "__CPROVER_assigns()\n")
+            callees = []
+            for cn, cs in callee_sigs.items():
+                if cn != name:
+                    callees.append(Fn(Z2, cs, cn, "", constexpr=ce))
+            fn = Fn(Z2, sig, name, con, constexpr=ce, canary=((rf"\(\*{ref}\) = ([^;]*);", rf"(*{ref}) = !(\1);") if ref else (r"return ([^;]*);", r"return !(\1);")))
+            decls = "  " + " ".join(f"{T} in_{v} = nondet_uint(); {T} x_{v} = in_{v};" for v in params)
+            args = ", ".join((f"&x_{v}" if v == ref else f"in_{v}") for v in params)
+            U.append(Unit(f"z2_ops.{name}.{T.replace(' ', '_')}", "C10", callees + [fn], enforce=name, typedefs=td, inputs=[f"in_{v}" for v in params],
+                          harness=H(decls, f"{name}({args});"),
+                          desc=f"Z2_field_operators::{name}<{T}>: arithmetic modulo 2 on the parities" + ("; only the designated operand is written" if ref else "")))
+
+
+# ------------------------------------------------------------------------------------------------ element-class operators
+def element_operator_units(U):
+    """compound assignment / comparison operators of the four element classes with run-time or template modulus:
+    the reduced representatives are forwarded to the leaf (replaced by its contract) and the result is stored"""
+    classes = [("zp_el", "Zp_field_element"), ("zp_sh", "Shared_Zp_field_element"),
+               ("mfs_el", "Multi_field_element_with_small_characteristics"), ("mfs_sh", "Shared_multi_field_element_with_small_characteristics")]
+    for k, cls in classes:
+        pr = PROF[k]
+        P = pr.P
+        G = pr.globals_ + GHOST_MUL + f"typedef struct {{ unsigned int element_; }} {cls};\n"
+        A = rf"{cls}& f1,\s*(?:const {cls}&|{cls} const&) f2"
+        SC = [cls]
+        for opname, opre, leaf, leaf_fn, SPEC in (("add_assign", r"\+=", "_add", fn_add(pr), "ADDMOD"), ("sub_assign", r"-=", "_subtract", fn_sub(pr), "SUBMOD")):
+            con = f"""
+__CPROVER_requires({P} >= 2 && f1->element_ < {P} && f2.element_ < {P})
+__CPROVER_ensures(f1->element_ == {SPEC}(__CPROVER_old(f1->element_), f2.element_, {P}))
+__CPROVER_assigns(f1->element_)
+"""
+            fn = Fn(pr.path, rf"friend void operator{opre}\({A}\)", opname, con, sig_subs=[(rf"operator{opre}", opname)], scopes=SC,
+                    canary=(rf"{leaf}\(\(\*f1\)\.element_, f2\.element_\)", f"{leaf}(f2.element_, (*f1).element_)") if leaf == "_subtract" else (rf"f2\.element_\)", "(*f1).element_)"))
+            U.append(Unit(f"{k}.operator.{opname}", "C10", [leaf_fn, fn], enforce=opname, replace=[leaf], typedefs=TD_U, globals_=G,
+                          inputs=["in_a", "in_b", P], replay=(mk_replay_native(k) if k in NATIVE_CLASS else mk_replay(k, leaf, ["in_a", "in_b", P])),
+                          harness=H(f"  {cls} in_a, in_b; in_a.element_ = nondet_uint(); in_b.element_ = nondet_uint(); {cls} x_a = in_a; {P} = nondet_uint();", f"{opname}(&x_a, in_b);"),
+                          desc=f"{cls} operator{opre.replace(chr(92), '')} on two elements: exact result reduced, stored in the left operand"))
+        mulg = fn_mul(pr, contract=c_mul_ghost(pr.Pleaf, pr.mul_names[0], pr.mul_names[1]), loops=False, canary=False)
+        con = f"""
+__CPROVER_requires({P} >= 2 && f1->element_ < {P} && f2.element_ < {P} && g_mul_n == 0)
+__CPROVER_ensures(g_mul_n == 1 && g_mul_a == __CPROVER_old(f1->element_) && g_mul_b == f2.element_ && f1->element_ == g_mul_r)
+__CPROVER_assigns(f1->element_, g_mul_a, g_mul_b, g_mul_r, g_mul_n)
+"""
+        fn = Fn(pr.path, rf"friend void operator\*=\({A}\)", "mul_assign", con, sig_subs=[(r"operator\*=", "mul_assign")], scopes=SC,
+                canary=(r"f2\.element_\)", "(*f1).element_)"))
+        U.append(Unit(f"{k}.operator.mul_assign", "C10", [mulg, fn], enforce="mul_assign", replace=["_multiply"], typedefs=TD_U, globals_=G,
+                      inputs=["in_a", "in_b", P],
+                      harness=H(f"  {cls} in_a, in_b; in_a.element_ = nondet_uint(); in_b.element_ = nondet_uint(); {cls} x_a = in_a; {P} = nondet_uint(); g_mul_n = 0;", "mul_assign(&x_a, in_b);"),
+                      desc=f"{cls} operator*= on two elements: _multiply is called once on the two representatives and its result is stored"))
+        con = f"""
+__CPROVER_ensures(__CPROVER_return_value == (f1.element_ == f2.element_))
+__CPROVER_assigns()
+"""
+        fn = Fn(pr.path, rf"friend bool operator==\(const {cls}& f1,\s*const {cls}& f2\)", "eq", con, sig_subs=[(r"operator==", "eq")], scopes=SC, canary=(r"==", "!="))
+        U.append(Unit(f"{k}.operator.eq", "C10", [fn], enforce="eq", typedefs=TD_U, globals_=G, inputs=["in_a", "in_b"],
+                      harness=H(f"  {cls} in_a, in_b; in_a.element_ = nondet_uint(); in_b.element_ = nondet_uint();", "eq(in_a, in_b);"),
+                      desc=f"{cls} operator== on two elements: equality of the reduced representatives"))
+        # element (op)= integer: the integer is converted by _get_value (replaced by its contract), binding unsigned int
+        td = dict(TD_U)
+        td["Integer_type"] = "unsigned int"
+        gv = fn_gvs(pr, "unsigned int", signed=False, name="_get_value")
+        for opname, opre, leaf, leaf_fn, SPEC in (("add_assign_int", r"\+=", "_add", fn_add(pr), "ADDMOD"), ("sub_assign_int", r"-=", "_subtract", fn_sub(pr), "SUBMOD")):
+            con = f"""
+__CPROVER_requires({P} >= 2 && f->element_ < {P})
+__CPROVER_ensures(f->element_ == {SPEC}(__CPROVER_old(f->element_), RES_U(v, {P}), {P}))
+__CPROVER_assigns(f->element_)
+"""
+            fn = Fn(pr.path, rf"friend void operator{opre}\({cls}& f, const Integer_type& v\)", opname, con, sig_subs=[(rf"operator{opre}", opname)], scopes=SC,
+                    canary=(r"_get_value\(v\)", "v"))
+            U.append(Unit(f"{k}.operator.{opname}", "C10", [gv, leaf_fn, fn], enforce=opname, replace=["_get_value", leaf], typedefs=td, globals_=G,
+                          inputs=["in_a", "in_v", P], runs=[Run(backend="z3", timeout=240)],
+                          harness=H(f"  {cls} in_a; in_a.element_ = nondet_uint(); unsigned int in_v = nondet_uint(); {cls} x_a = in_a; {P} = nondet_uint();", f"{opname}(&x_a, in_v);"),
+                          desc=f"{cls} operator{opre.replace(chr(92), '')} with an unsigned integer: the integer is reduced first, then the exact result reduced is stored"))
 
 
 def R_(x, P):
@@ -510,7 +812,7 @@ def ops_units(pr, U, thorough):
              desc=f"{name}: _multiply is called exactly once, on the two residues, and its result is what is returned/stored")
     # -- fused operations on reduced operands.  clause 1: which expression is reduced (shared with the code);
     #    clause 2: that expression does not wrap in 32 bits, so clause 1 is the exact result (refuted where it wraps: F6)
-    PMAX = "65536u" if k == "zp_ops" else "4294967295u"
+    PMAX = "65536u"     # primes below 2^16 (property); small multi-fields document P^2 fitting an unsigned int
     for fam, expr32, expr64, sigs in (
         ("multiply_and_add", "({e} * {m} + {a})", "((uint64_t){e} * (uint64_t){m} + (uint64_t){a})",
          [("multiply_and_add", r"Element multiply_and_add\(Element e, Element m, Element a\) const", None, "e, m, a"),
